@@ -72,7 +72,14 @@ class Scheduler:
     # -- running ------------------------------------------------------------------------------
     def run(self, fns):
         assert len(fns) == self.n
-        ths = [threading.Thread(target=self._main, args=(i, fn), daemon=True) for i, fn in enumerate(fns)]
+        if getattr(self, "inherit_context", False):
+            # threads started the way asyncio.to_thread / executors with copy_context() start them: each runs in a COPY of the
+            # starter's contextvars context (a copy shares every mutable object the starter's variables point to)
+            import contextvars
+
+            ths = [threading.Thread(target=contextvars.copy_context().run, args=(self._main, i, fn), daemon=True) for i, fn in enumerate(fns)]
+        else:
+            ths = [threading.Thread(target=self._main, args=(i, fn), daemon=True) for i, fn in enumerate(fns)]
         for t in ths:
             t.start()
         first = self.policy.first(self)
